@@ -167,12 +167,12 @@ static sqfs_object_t *data_reader_copy(const sqfs_object_t *obj)
 	}
 
 	if (copy->frag_block != NULL) {
-		copy->frag_block = malloc(copy->frag_blk_size);
+		copy->frag_block = malloc(data->block_size);
 		if (copy->frag_block == NULL)
 			goto fail_fblk;
 
 		memcpy(copy->frag_block, data->frag_block,
-		       data->frag_blk_size);
+		       data->block_size);
 	}
 
 	/* duplicate references */
